@@ -198,8 +198,14 @@ class SyncedDict(SyncedCollection, MutableMapping):
                 # The modification must happen inside the locked section, or a
                 # concurrent writer's load/save cycle can discard it.
                 with self._thread_lock:
-                    self._update(data)
-                    self._save()
+                    try:
+                        self._update(data)
+                    finally:
+                        # Like every other modifying operation, store whatever was
+                        # applied even if a later item is rejected: otherwise the
+                        # data in memory silently differs from the resource (or
+                        # the buffer), which is never told about the change.
+                        self._save()
             else:
                 # A nested collection may be stale: other handles can have
                 # changed the rest of the data, so it must be reloaded first.
